@@ -131,16 +131,17 @@ impl<'a> ExactCache<'a> {
 struct PairCache<'a> {
     data: &'a [(f64, f64)],
     cache: RefCell<Vec<Option<Rc<ExactPair>>>>,
+    weighted: bool,
 }
 impl<'a> PairCache<'a> {
-    fn new(data: &'a [(f64, f64)], nodes: usize) -> Self {
-        PairCache { data, cache: RefCell::new(vec![None; nodes]) }
+    fn new(data: &'a [(f64, f64)], nodes: usize, weighted: bool) -> Self {
+        PairCache { data, cache: RefCell::new(vec![None; nodes]), weighted }
     }
     fn get(&self, id: usize, range: (usize, usize)) -> Rc<ExactPair> {
         if let Some(e) = &self.cache.borrow()[id] {
             return e.clone();
         }
-        let e = Rc::new(exact_pair(&self.data[range.0..range.1]));
+        let e = Rc::new(crate::envelope::exact_pair_sel(&self.data[range.0..range.1], !self.weighted, self.weighted));
         self.cache.borrow_mut()[id] = Some(e.clone());
         e
     }
@@ -197,9 +198,16 @@ pub fn check_scalar_node<E: Est<Item = f64>>(
         match ex.judge(stat, got) {
             Verdict::Ok(r) => {
                 st.ratio(&stat.name(), r);
+                st.bump("oracle.statistic_inside_envelope");
             }
             Verdict::Skip => {
-                st.bump("oracle.skipped_outside_domain");
+                if n == 0 {
+                    st.bump("oracle.skipped_empty_node");
+                } else if !(ex.sigma > 0.) {
+                    st.bump("oracle.skipped_zero_spread");
+                } else {
+                    st.bump("oracle.skipped_outside_domain");
+                }
             }
             Verdict::Fail(exact, tol) => {
                 return Err(Viol::new(
@@ -267,7 +275,10 @@ impl<'a, 'b, E: Est<Item = (f64, f64)>> Hooks<E> for PairEnvHooks<'a, 'b> {
         for (stat, got) in acc.stats_vec() {
             let v = if self.weighted { ex.judge_weighted(stat, got) } else { ex.judge_cov(stat, got) };
             match v {
-                Verdict::Ok(r) => self.st.ratio(&stat.name(), r),
+                Verdict::Ok(r) => {
+                    self.st.ratio(&stat.name(), r);
+                    self.st.bump("oracle.statistic_inside_envelope");
+                }
                 Verdict::Skip => self.st.bump("oracle.skipped_outside_domain"),
                 Verdict::Fail(exact, tol) => {
                     return Err(Viol::new(
@@ -716,7 +727,7 @@ impl RScenario {
             }
             RProp::C08 => {
                 let data = tr.pairs();
-                let cache = PairCache::new(&data, nn);
+                let cache = PairCache::new(&data, nn, true);
                 let mut res: Result<(), Viol> = Ok(());
                 macro_rules! go { ($T:ty) => {
                     if res.is_ok() {
@@ -735,7 +746,7 @@ impl RScenario {
             }
             RProp::C09 => {
                 let data = tr.pairs();
-                let cache = PairCache::new(&data, nn);
+                let cache = PairCache::new(&data, nn, false);
                 let mut res = guarded("Covariance", || {
                     let mut h = PairEnvHooks { exact: &cache, root, st, weighted: false };
                     run_tree::<average::Covariance, _>(tree, &data, &no_faults, &mut h).map(|_| ())
@@ -744,7 +755,7 @@ impl RScenario {
                     // x/y swapped twin under the same tree: x/y statistics swap, covariance and
                     // correlation stay inside the envelope of the same exact values
                     let sw: Vec<(f64, f64)> = data.iter().map(|p| (p.1, p.0)).collect();
-                    let cache2 = PairCache::new(&sw, nn);
+                    let cache2 = PairCache::new(&sw, nn, false);
                     res = guarded("Covariance", || {
                         let mut h = PairEnvHooks { exact: &cache2, root, st, weighted: false };
                         run_tree::<average::Covariance, _>(tree, &sw, &no_faults, &mut h).map(|_| ())
@@ -1228,7 +1239,7 @@ fn simpler_value(x: f64) -> Vec<f64> {
 }
 
 #[derive(Clone, Debug)]
-enum REdit {
+pub enum REdit {
     SingleLeaf,
     RemoveItems(usize, usize),
     Collapse(usize),
@@ -1241,7 +1252,7 @@ enum REdit {
     SetValue(usize, bool, u64),
 }
 
-fn r_edits(tr: &RTrace) -> Vec<REdit> {
+pub fn r_edits(tr: &RTrace) -> Vec<REdit> {
     let mut out = vec![];
     let n = tr.data.len();
     if tr.tree.nodes.len() > 1 {
@@ -1307,7 +1318,7 @@ fn r_edits(tr: &RTrace) -> Vec<REdit> {
     out
 }
 
-fn r_apply(tr: &RTrace, e: &REdit) -> Option<RTrace> {
+pub fn r_apply(tr: &RTrace, e: &REdit) -> Option<RTrace> {
     let mut t;
     match e {
         REdit::SingleLeaf => {
